@@ -3,6 +3,9 @@ from kernel_main import main, run  # noqa
 
 
 def extra(report, fam, tier, seed):
+    from contracts import subgraph_order
+
+    report.guarded("subgraph order", subgraph_order.run, report, fam)
     import os
     import fragments
 
@@ -40,7 +43,7 @@ def check(argv):
         "C05", argv, extra=extra,
         analyses=["frame", "returns_zero", "guarded_reads", "progress"],
         static_note="static analyses of standins/static_ir.py are sound over-approximations (pointer-origin taint, syntactic loop guards)",
-        explanation="Kind B (bucket): the bucket index stays inside the bucket and the zero-initialisation loop stays inside it and terminates, per number of bucket levels, all dimensions. Kind B (allocators of the LLVM back end): malloc/realloc receive exactly sizeof(element) * n bytes for every count up to 2^31-1 (defect F9 was a 32-bit product). Kind B (output set-up and hand-over): AppendOutput.write_declarations allocates every pos/crd/vals array with its capacity (exact where the levels above are dense), pos[0] = 0 and cursors 0; AppendOutput.write_cleanup hands back pos/crd of exactly the structure's size and vals covering every stored position - per mode vector, all dimensions, counts and capacities. Kind B (fragments): Hoare triples of write_crd_assembly / write_pos_allocation / write_pos_assembly proved for all states and all capacities >= 1 on the fragment the real emitter produces for every mode vector up to order 4 (5 thorough). Kind B (whole kernel, all inputs): symbolic execution of the emitted IR with Houdini-inferred loop invariants proves every load/store in bounds, every allocation size non-negative, every store inside kernel-owned arrays and every loop measure decreasing, for the kernels listed as fully proved. Kind B (static): for every kernel (evaluate/assemble/compute) of the problem family, static proofs on the emitted IR that no store or "
+        explanation="Kind B (merge-loop order, per problem): generate_subgraphs lists every subgraph after every subgraph it is a simplification of, the one without sparse operands last. Kind B (bucket): the bucket index stays inside the bucket and the zero-initialisation loop stays inside it and terminates, per number of bucket levels, all dimensions. Kind B (allocators of the LLVM back end): malloc/realloc receive exactly sizeof(element) * n bytes for every count up to 2^31-1 (defect F9 was a 32-bit product). Kind B (output set-up and hand-over): AppendOutput.write_declarations allocates every pos/crd/vals array with its capacity (exact where the levels above are dense), pos[0] = 0 and cursors 0; AppendOutput.write_cleanup hands back pos/crd of exactly the structure's size and vals covering every stored position - per mode vector, all dimensions, counts and capacities. Kind B (fragments): Hoare triples of write_crd_assembly / write_pos_allocation / write_pos_assembly proved for all states and all capacities >= 1 on the fragment the real emitter produces for every mode vector up to order 4 (5 thorough). Kind B (whole kernel, all inputs): symbolic execution of the emitted IR with Houdini-inferred loop invariants proves every load/store in bounds, every allocation size non-negative, every store inside kernel-owned arrays and every loop measure decreasing, for the kernels listed as fully proved. Kind B (static): for every kernel (evaluate/assemble/compute) of the problem family, static proofs on the emitted IR that no store or "
                     "realloc goes through an input tensor, every input crd read is under its cursor's loop guard, every loop advances one of its "
                     "condition variables, and the body ends in `return 0`. Kind C: every load/store/realloc of the same kernels checked on the reference "
                     "machine (bounds, initialisation, ownership, liveness, int32, step budget) with initial capacities 1.. through the capacity knob.",
